@@ -927,9 +927,9 @@ def r05_9(ctx, prog, crate):
 
 def r05_13(ctx, prog, crate):
     """The allocation figures under a time are those of the sample that supplied it: a sample's snapshot is stored unless
-    *all* its tallies are zero - AllocOpMap::is_empty is `all` over the whole `values` array (every operation kind), and the
-    predicate accepts a tally only when count and size are both zero. A sample that only reallocates must keep its
-    snapshot."""
+    *all* its tallies are zero - AllocOpMap::is_empty quantifies over the whole `values` array (every operation kind) and
+    accepts a tally only when count and size are both zero: `all(count == 0 && size == 0)` or its De Morgan twin
+    `!any(count != 0 || size != 0)`. A sample that only reallocates must keep its snapshot."""
     from lib.patheval import PathEval
     b = prog.body("alloc::AllocOpMap::is_empty", crate)
     if not ctx.anchor("R05.13", "AllocOpMap::is_empty", 1 if b else 0, 1):
@@ -938,23 +938,58 @@ def r05_13(ctx, prog, crate):
     sums = PathEval(b).run()
     ok = bool(sums) and len(sums) == 1 and not sums[0].conds
     r = sums[0].ret if ok else None
-    ok = ok and r[0] == "site" and r[1].rsplit("::", 1)[-1] == "all" and r[3] and r[3][0][0] == "site" and \
+    neg = False
+    if ok and r[0] == "un" and r[1] == "Not":
+        neg, r = True, r[2]
+    quant = r[1].rsplit("::", 1)[-1] if ok and r[0] == "site" else None
+    ok = ok and r[0] == "site" and quant in ("all", "any") and (quant == "any") == neg and r[3] and r[3][0][0] == "site" and \
         r[3][0][1].rsplit("::", 1)[-1] in ("iter", "into_iter") and r[3][0][3] and r[3][0][3][0] in (("sptr", (1, ("values",))), ("ptr", (1, ("values",))))
     ctx.check(ok, "R05.13", ["is_empty", "all-over-every-operation-kind"],
-              "AllocOpMap::is_empty is not `self.values.iter().all(..)` over the whole array: a sample whose only operations are of a "
-              "kind it does not look at loses its allocation snapshot", b.where(0))
+              "AllocOpMap::is_empty is not `self.values.iter().all(..)` (or `!any(..)`) over the whole array: a sample whose only operations "
+              "are of a kind it does not look at loses its allocation snapshot", b.where(0))
     cl = [x for x in prog.children(b) if x.kind == "Closure"]
-    if ctx.check(len(cl) == 1, "R05.13", ["is_empty", "predicate"], "predicates: %d" % len(cl), b.where(0)):
-        ps = PathEval(cl[0]).run() or []
-        # paths that can answer true: a literal true, or a final `field == 0` comparison
-        t = [p_ for p_ in ps if p_.ret == ("int", 1) or (p_.ret[0] == "cmp" and p_.ret[1] == "Eq" and ("int", 0) in p_.ret[2:])]
-        fields = set()
-        for p_ in t:
-            for a, pol in list(p_.conds) + ([(p_.ret, True)] if p_.ret[0] == "cmp" else []):
-                if pol and a[0] in ("Eq", "cmp") and ("int", 0) in a:
-                    fields |= {f for f in ("count", "size") if "'%s'" % f in str(a)}
-        ctx.check(len(t) == 1 and fields == {"count", "size"}, "R05.13", ["is_empty", "zero-count-and-zero-size"],
-                  "the predicate answers true on %d paths looking at %s; expected exactly count == 0 && size == 0" % (len(t), sorted(fields)), cl[0].where(0))
+    if not ok or not ctx.check(len(cl) == 1, "R05.13", ["is_empty", "predicate"], "predicates: %d" % len(cl), b.where(0)):
+        return
+    # truth table of the predicate over (count == 0, size == 0)
+    ps = PathEval(cl[0]).run() or []
+
+    def atom(a):
+        """('count'|'size', True if the atom says `field == 0`)"""
+        if a[0] in ("Eq", "Ne", "cmp") and ("int", 0) in a:
+            op = a[1] if a[0] == "cmp" else a[0]
+            f = [x for x in ("count", "size") if "'%s'" % x in str(a)]
+            if len(f) == 1 and op in ("Eq", "Ne"):
+                return f[0], op == "Eq"
+        return None
+    table = {}
+    readable = bool(ps)
+    for cz in (True, False):
+        for sz in (True, False):
+            val = None
+            for p_ in ps:
+                env = {"count": cz, "size": sz}
+                feasible = True
+                for a, pol in p_.conds:
+                    at = atom(a)
+                    if at is None:
+                        readable = False
+                        continue
+                    if (env[at[0]] == at[1]) != bool(pol):
+                        feasible = False
+                if not feasible:
+                    continue
+                if p_.ret[0] == "int":
+                    val = bool(p_.ret[1])
+                else:
+                    at = atom(p_.ret)
+                    if at is None:
+                        readable = False
+                    else:
+                        val = env[at[0]] == at[1]
+            table[(cz, sz)] = val
+    want = {(True, True): not neg, (True, False): neg, (False, True): neg, (False, False): neg}
+    ctx.check(readable and table == want, "R05.13", ["is_empty", "zero-count-and-zero-size"],
+              "the predicate of is_empty over (count == 0, size == 0) is %s; expected %s" % (sorted(table.items()), sorted(want.items())), cl[0].where(0))
 
 
 def run(ctx, prog, crate):
